@@ -1406,6 +1406,150 @@ func ruleLeak(c *Ctx) {
 			"the object handed out by the getter is replaced, never mutated in place, so holders can read it without the lock",
 			"the getter returns the live "+l.field+" while the owner mutates that object in place ("+bad+"): callers read it without the lock (concurrent map read and map write)")
 	}
+	// (i') a snapshot is a deep enough copy: a getter that returns a struct copied wholesale from a guarded pointer
+	// (`clone := *w.resolved; return &clone`, also through a module helper handed the guarded pointer) replaces
+	// every slice and map field of the copy by a fresh one - a field left as it was shares its backing array with
+	// the live object, which the owner compacts / appends to in place under its lock while holders read the copy
+	// without it
+	nSnap := 0
+	for _, f := range ci.funcs {
+		if f.Signature.Recv() == nil || f.Parent() != nil || len(f.Params) == 0 || ci.initFns[f] {
+			continue
+		}
+		rt := f.Signature.Recv().Type()
+		if pt, ok := rt.(*types.Pointer); ok {
+			rt = pt.Elem()
+		}
+		if !hasMutex(rt) {
+			continue
+		}
+		guardedPtr := func(v ssa.Value) bool {
+			un, ok := v.(*ssa.UnOp)
+			if !ok || un.Op != token.MUL {
+				return false
+			}
+			fa, ok := un.X.(*ssa.FieldAddr)
+			return ok && fa.X == f.Params[0]
+		}
+		// shared(fn, isGuarded): the slice / map fields of a struct that fn returns (by pointer or by value) after
+		// copying it wholesale from a pointer for which isGuarded holds, and never replaces
+		var shared func(fn *ssa.Function, isGuarded func(ssa.Value) bool, depth int) []string
+		shared = func(fn *ssa.Function, isGuarded func(ssa.Value) bool, depth int) []string {
+			var out []string
+			for _, b := range fn.Blocks {
+				ret, ok := lastInstr(b).(*ssa.Return)
+				if !ok {
+					continue
+				}
+				var cands []ssa.Value
+				for _, rv := range ret.Results {
+					cands = append(cands, rv)
+					// defer-spilled results: `*t0 = v; rundefers; return *t0`
+					if un, ok := rv.(*ssa.UnOp); ok && un.Op == token.MUL {
+						if al, ok := un.X.(*ssa.Alloc); ok && al.Referrers() != nil {
+							if _, isPtr := al.Type().Underlying().(*types.Pointer).Elem().Underlying().(*types.Pointer); isPtr {
+								for _, ref := range *al.Referrers() {
+									if st, ok := ref.(*ssa.Store); ok && st.Addr == ssa.Value(al) {
+										cands = append(cands, st.Val)
+									}
+								}
+							}
+						}
+					}
+				}
+				for _, rv := range cands {
+					if call, ok := rv.(*ssa.Call); ok && depth < 2 {
+						if cal := call.Call.StaticCallee(); cal != nil && inModule(cal) && cal.Blocks != nil {
+							bound := map[*ssa.Parameter]bool{}
+							for i, a := range call.Call.Args {
+								if i < len(cal.Params) && isGuarded(a) {
+									bound[cal.Params[i]] = true
+								}
+							}
+							if len(bound) > 0 {
+								out = append(out, shared(cal, func(v ssa.Value) bool { p, ok := v.(*ssa.Parameter); return ok && bound[p] }, depth+1)...)
+							}
+						}
+						continue
+					}
+					al, ok := rv.(*ssa.Alloc)
+					if !ok {
+						if un, isLoad := rv.(*ssa.UnOp); isLoad && un.Op == token.MUL {
+							al, ok = un.X.(*ssa.Alloc)
+						}
+					}
+					if !ok || al == nil || al.Referrers() == nil {
+						continue
+					}
+					st, isStruct := al.Type().Underlying().(*types.Pointer).Elem().Underlying().(*types.Struct)
+					if !isStruct {
+						continue
+					}
+					copied := false
+					replaced := map[int]bool{}
+					for _, r := range *al.Referrers() {
+						switch u := r.(type) {
+						case *ssa.Store:
+							if u.Addr == ssa.Value(al) {
+								if src, ok := u.Val.(*ssa.UnOp); ok && src.Op == token.MUL && isGuarded(src.X) {
+									copied = true
+								}
+							}
+						case *ssa.FieldAddr:
+							if u.Referrers() == nil {
+								continue
+							}
+							for _, r2 := range *u.Referrers() {
+								if s2, ok := r2.(*ssa.Store); ok && s2.Addr == ssa.Value(u) {
+									replaced[u.Field] = true
+								}
+							}
+						}
+					}
+					if !copied {
+						continue
+					}
+					for i := 0; i < st.NumFields(); i++ {
+						switch st.Field(i).Type().Underlying().(type) {
+						case *types.Slice, *types.Map:
+							if !replaced[i] {
+								out = append(out, st.Field(i).Name())
+							}
+						}
+					}
+				}
+			}
+			return out
+		}
+		// only functions that copy at all are subjects
+		fields := shared(f, guardedPtr, 0)
+		copies := false
+		for _, b := range f.Blocks {
+			for _, ins := range b.Instrs {
+				if call, ok := ins.(*ssa.Call); ok {
+					for _, a := range call.Call.Args {
+						if guardedPtr(a) {
+							copies = true
+						}
+					}
+				}
+				if st, ok := ins.(*ssa.Store); ok {
+					if src, ok := st.Val.(*ssa.UnOp); ok && src.Op == token.MUL && guardedPtr(src.X) {
+						copies = true
+					}
+				}
+			}
+		}
+		if !copies && len(fields) == 0 {
+			continue
+		}
+		nSnap++
+		sort.Strings(fields)
+		c.check(len(fields) == 0, "C-LEAK", funcName(f), "a snapshot copied from a guarded object shares no slice or map with it", f.Pos(),
+			"every slice and map field of the returned copy is replaced by a fresh one",
+			fmt.Sprintf("the getter returns a copy of a guarded struct whose fields %v still share their storage with the live object: the owner changes them in place under its lock (an element removed from the middle of a list shifts the rest) while holders of the snapshot read them without it", fields))
+	}
+	c.note("C-LEAK: getters that pass a guarded pointer on or copy from it: %d", nSnap)
 	// (ii) nobody writes through a handed-out reference
 	seeds := map[*ssa.Function]string{}
 	for _, l := range leaks {
